@@ -65,7 +65,9 @@ Theorem C11_valid_is_inside_bytes : forall input p,
 Proof. exact valid_inside_bytes. Qed.
 Print Assumptions C11_valid_is_inside_bytes.
 
-(* collect-all mode reports the fail-fast diagnostic first (and both modes accept the same inputs) *)
+(* collect-all mode reports the fail-fast diagnostic first (and both modes accept the same inputs).
+   A diagnostic is its range and its message (diag: dstart, dend, dmsg — the bytes of Err.Error(),
+   formatted from the texts, formats and expected token sets the translator reads from the code) *)
 Theorem C11_collect_first_is_failfast : forall data,
   match parse_runes true data, parse_runes false data with
   | Ok p1, Ok p2 => hd_error (pdiags p1) = hd_error (pdiags p2)
@@ -114,7 +116,7 @@ Qed.
 
 Example C11_example_modes :
   let src := [120;32;61;32;35;10;121;32;61;32;34;195;169;10]%N in   (* x = # / y = (quote) e-acute, newline: two lexer errors *)
-  parse_file src true = Ok (mkP None [mkDiag (0,4)%Z (0,4)%Z]) /\
-  parse_file src false = Ok (mkP None [mkDiag (0,4)%Z (0,4)%Z; mkDiag (1,6)%Z (1,6)%Z]) /\
-  human_bytes src 1 [mkDiag (1,6)%Z (1,6)%Z] = Ok [HCaret 1 6].
+  parse_file src true = Ok (mkP None [mkDiag (0,4)%Z (0,4)%Z (msg_char 35)]) /\
+  parse_file src false = Ok (mkP None [mkDiag (0,4)%Z (0,4)%Z (msg_char 35); mkDiag (1,6)%Z (1,6)%Z msg_eol_string]) /\
+  human_bytes src 1 [mkDiag (1,6)%Z (1,6)%Z msg_eol_string] = Ok [HCaret 1 6].
 Proof. cbv zeta. repeat split; vm_compute; reflexivity. Qed.
